@@ -183,5 +183,35 @@ def run(ctx):
     if not any('os_timed_acquire:release_deadlock' in x for x in f14):
         r.notes.append('F14 (OS-thread timed acquire + release deadlock) did NOT reproduce in this run: the finding in '
                        'KNOWN_FINDINGS.txt and the theorem C08_os_timed_acquire_deadlock_refuted may be out of date')
+    # ---- witness of C08_no_blocked_with_permits_mixed_counts_refuted replayed on the real code (detail API,
+    # counts 2 and 1 queued, signal(1)): the model must predict the run; the expected outcome (stuck, threads
+    # 0 and 1 blocked, one permit available) is an observation about the detail API, not a violation
+    h_rp = ctx.build_harness('c08_replay', 'c08_replay.cpp')
+    rc, out = sh([h_rp, 'C', '0', '0', '0', 'A2;A1;R1', '0,0,1,1,2,2,0,0'], timeout=120)
+    lines = out.split('\n')
+    ins = [x for x in lines if x.startswith('IN ')]
+    outs = [x for x in lines if x.startswith('OUT ')]
+    for hl in [x for x in lines if x.startswith('HIT ')]:
+        pp = hl.split(' ', 2)
+        r.hits.append(Hit('monitor', 'C08:' + pp[1], 'replay of the mixed-count witness on the real semaphore: ' + pp[2],
+                          {'harness': 'c08_replay', 'args': ['C', 0, 0, 0, 'A2;A1;R1', '0,0,1,1,2,2,0,0']}))
+    if rc != 0 or not any(x.startswith('DONE') or x.startswith('HIT') for x in lines):
+        r.hits.append(Hit('monitor' if rc in (124, -6, 134, -11, 139) else 'tie', 'C08:replay:crash_or_hang',
+                          'c08_replay ended abnormally rc=%s: %s' % (rc, out[-300:]), {'harness': 'c08_replay'}))
+    if ins and outs:
+        rc2, mout = sh([drv], input=ins[0] + '\n', timeout=120)
+        mouts = [x for x in mout.split('\n') if x.startswith('OUT ')]
+        diffs, ncases = diff_lines(ctx, outs[:1], mouts[:1])
+        r.evaluations += ncases
+        r.traces += ncases - len(diffs)
+        for (k, a, b) in diffs:
+            r.hits.append(Hit('corr', 'C08:replay:correspondence',
+                              'mixed-count witness: implementation and model differ: impl [%s] model [%s] input [%s]' % (a, b, ins[0]),
+                              {'harness': 'c08_replay', 'case': ins[0], 'impl': a, 'model': b}))
+        stuck = 'STUCK 1' in lines
+        r.notes.append('mixed-count witness (C08_no_blocked_with_permits_mixed_counts_refuted) replayed on the real code: %s; stuck=%s '
+                       '(expected: blocked=0,1 final=1 — a count-1 waiter blocked with a permit available; detail API only)'
+                       % (outs[0], stuck))
+        r.extra['mixed_count_witness_reproduced'] = bool(stuck and 'blocked=0,1' in outs[0] and outs[0].endswith('final=1'))
     r.extra['lockstep_traces_validated'] = r.traces
     return r
